@@ -1,6 +1,7 @@
 import RlModel.Lemmas.KernelSlots
 import RlModel.Lemmas.KernelEval
 import RlModel.Lemmas.KernelLen
+import RlModel.Model.KernelFold
 /-!
 C14 — vectorised expression evaluation equals scalar SQL semantics.
 
@@ -1398,5 +1399,122 @@ alike by the translated regex and by SQL LIKE, and the pattern compiles. -/
 theorem like_pointwise_partial (p : String) (a : Arr String) (h : likeTags p a = []) :
     (Col.like p (.str a)).map Col.abs
       = .ok (.bool ((vals a).map (Option.map fun s => likeSpec p s))) := like_abs p a h
+
+/-! ## Constant folding -/
+
+/-- Full statement (does NOT hold): whenever `eval_constant` folds an expression to `v` and the
+evaluator computes a value for it, the value is `v`. -/
+def FoldEqEval : Prop := ∀ (e : KExpr) (v : KVal) (c : Col),
+  foldC e = .ok (some v) → (evalK [] 1 e).1 = .ok c → c.get0 = v
+
+/-- Witness: `(1/0 = 1) OR true` — folded to NULL by the NULL short-cut, evaluated it is TRUE. -/
+theorem fold_eq_eval_unsound : ¬ FoldEqEval := by
+  intro h
+  have := h (.or (.cmp .eq (.arith .div (.const (.int .w32 1)) (.const (.int .w32 0))) (.const (.int .w32 1)))
+      (.const (.bool true))) .null (.bool [⟨true, true⟩]) (by decide) (by decide)
+  simp [Col.get0] at this
+
+/-- Folding a division by a zero constant gives NULL, as the run-time kernel does. -/
+example : foldC (.arith .div (.const (.int .w32 1)) (.const (.int .w32 0))) = .ok (some .null) := by
+  decide
+
+/-- `x % 0` and an overflowing constant panic inside the analysis, i.e. while planning. -/
+theorem fold_rem_zero_panics :
+    foldC (.arith .rem (.const (.int .w32 1)) (.const (.int .w32 0))) = .panic := by decide
+
+theorem fold_overflow_panics :
+    foldC (.arith .add (.const (.int .w32 2147483647)) (.const (.int .w32 1))) = .panic := by decide
+
+/-- An out-of-range cast is not folded (`a.cast(ty).ok()`): the error surfaces at run time. -/
+theorem fold_cast_out_of_range_unknown :
+    foldC (.cast (.int .w16) (.const (.int .w32 70000))) = .ok none ∧
+    (evalK [] 1 (.cast (.int .w16) (.const (.int .w32 70000)))).1 = .err := by decide
+
+
+theorem isNull_eq (v : KVal) (h : v.isNull = true) : v = .null := by cases v <;> simp_all [KVal.isNull]
+
+/-- A one-row column whose value is the non-NULL constant `v` IS the constant's array. -/
+theorem const_of_get0 (c : Col) (v : KVal) (hl : c.len = 1) (hg : c.get0 = v)
+    (hn : v.isNull = false) : c = constCol v 1 := by
+  cases c with
+  | null n => simp [Col.get0] at hg; subst hg; simp [KVal.isNull] at hn
+  | bool a =>
+    match a, hl with
+    | [s], _ =>
+      rcases s with ⟨sv, sr⟩
+      cases sv <;> simp [Col.get0] at hg <;> subst hg
+      · simp [KVal.isNull] at hn
+      · simp [constCol]
+  | int w a =>
+    match a, hl with
+    | [s], _ =>
+      rcases s with ⟨sv, sr⟩
+      cases sv <;> simp [Col.get0] at hg <;> subst hg
+      · simp [KVal.isNull] at hn
+      · simp [constCol]
+  | str a =>
+    match a, hl with
+    | [s], _ =>
+      rcases s with ⟨sv, sr⟩
+      cases sv <;> simp [Col.get0] at hg <;> subst hg
+      · simp [KVal.isNull] at hn
+      · simp [constCol]
+
+theorem foldBin_sound (K : Col → Col → KOut Col) (fa fb : KOut (Option KVal)) (ca cb c : Col)
+    (v : KVal) (ha : ∀ va, fa = .ok (some va) → ca.get0 = va)
+    (hb : ∀ vb, fb = .ok (some vb) → cb.get0 = vb) (la : ca.len = 1) (lb : cb.len = 1)
+    (hstrict : ∀ va vb, fa = .ok (some va) → fb = .ok (some vb) →
+      (va.isNull || vb.isNull) = true → c.get0 = .null)
+    (hf : foldBin fa fb K = .ok (some v)) (hk : K ca cb = .ok c) : c.get0 = v := by
+  unfold foldBin at hf
+  cases fa with
+  | ok oa =>
+    cases fb with
+    | ok ob =>
+      cases oa with
+      | some va =>
+        cases ob with
+        | some vb =>
+          simp only at hf
+          by_cases hn : (va.isNull || vb.isNull) = true
+          · simp only [hn, if_true] at hf
+            cases hf
+            exact hstrict va vb rfl rfl hn
+          · simp only [hn, if_false] at hf
+            simp only [Bool.or_eq_true, not_or, Bool.not_eq_true] at hn
+            have e1 := const_of_get0 ca va la (ha va rfl) hn.1
+            have e2 := const_of_get0 cb vb lb (hb vb rfl) hn.2
+            rw [← e1, ← e2, hk] at hf
+            simp only at hf
+            cases hf; rfl
+        | none => simp at hf
+      | none => simp at hf
+    | err => simp at hf
+    | panic => simp at hf
+  | err => simp at hf
+  | panic => simp at hf
+
+theorem foldUn_sound (K : Col → KOut Col) (fa : KOut (Option KVal)) (ca c : Col) (v : KVal)
+    (ha : ∀ va, fa = .ok (some va) → ca.get0 = va) (la : ca.len = 1)
+    (hstrict : ca.get0 = .null → c.get0 = .null)
+    (hf : foldUn fa K = .ok (some v)) (hk : K ca = .ok c) : c.get0 = v := by
+  unfold foldUn at hf
+  cases fa with
+  | ok oa =>
+    cases oa with
+    | some va =>
+      simp only at hf
+      by_cases hn : va.isNull = true
+      · simp only [hn, if_true] at hf
+        cases hf
+        exact hstrict (by rw [ha va rfl]; exact isNull_eq va hn)
+      · simp only [hn, if_false] at hf
+        have e1 := const_of_get0 ca va la (ha va rfl) (by simpa using hn)
+        rw [← e1, hk] at hf
+        simp only at hf
+        cases hf; rfl
+    | none => simp at hf
+  | err => simp at hf
+  | panic => simp at hf
 
 end RlModel
